@@ -795,22 +795,24 @@ pub fn run_fuzz(ctx: &Ctx, prop: &Property, spec: &FuzzSpec, rec: &Recorder) -> 
             .arg("-rss_limit_mb=4096")
             .env("RUST_BACKTRACE", "0")
             .stdout(std::process::Stdio::null())
-            .stderr(std::process::Stdio::piped())
+            // a log file, not a pipe: nobody reads a pipe before the process is waited for, and
+            // libFuzzer blocks on a full pipe (the eight processes then run one after the other)
+            .stderr(std::fs::File::create(work.join(format!("p{}.log", k))).map_err(|e| e.to_string())?)
             .spawn()
             .map_err(|e| format!("spawn {}: {}", bin.display(), e))?;
-        children.push(child);
+        children.push((k, child));
     }
     let mut total_runs = 0u64;
     let mut crashed = false;
-    for c in children {
-        let out = c.wait_with_output().map_err(|e| e.to_string())?;
-        let err = String::from_utf8_lossy(&out.stderr);
+    for (k, mut c) in children {
+        let status = c.wait().map_err(|e| e.to_string())?;
+        let err = std::fs::read(work.join(format!("p{}.log", k))).map(|b| String::from_utf8_lossy(&b).to_string()).unwrap_or_default();
         for l in err.lines() {
             if let Some(n) = l.strip_prefix("stat::number_of_executed_units:") {
                 total_runs += n.trim().parse::<u64>().unwrap_or(0);
             }
         }
-        if !out.status.success() {
+        if !status.success() {
             crashed = true;
         }
     }
